@@ -92,7 +92,7 @@ def runQueries (mode : String) (unit sets nq : String) (rest : List String) : St
     c14 raw <impl|spec> <unit> <vcp> <sets> <nq> <query>*nq <rtree>
     rtree := S <pre> <suf> <body> | T <id> <soup N|0|1> <hidden> <nsprefix> <name> <attrs> <setidx|N> <cbe> <nkids> rtree*nkids
     attrs := <default>[;<enc>=<attrstring>]*       enc = N | cps
-    query := <path>/<call>/<lvl N|T|F|int>/<enc D|N|cps>     call = d | c | e | ec | p
+    query := <path>/<call>/<lvl N|T|F|int>/<enc D|N|cps>     call = d | c | e | ec | p | tp | tq (canonical plain / pretty tokens)
     reply per query: cps | e   or   b:<enc>:<cps|e>  for a bytes result -/
 
 def parseAttrs (s : String) : PStr × List (Option PStr × PStr) :=
@@ -148,6 +148,11 @@ def showOut : Out → String
   | .str s => showP s
   | .bytes e t => s!"b:{showCps e}:{showP t}"
 
+def showToks (ts : List Tok) : String :=
+  if ts.isEmpty then "-" else ";".intercalate (ts.map fun t => match t with
+    | .markup p => "M" ++ showP p
+    | .data d => "D" ++ showP d)
+
 def rawAnswer (spec : Bool) (unit vcp : PStr) (root : RNode) (q : String) : String :=
   match q.splitOn "/" with
   | [path, call, lvl, enc] =>
@@ -176,6 +181,9 @@ def rawAnswer (spec : Bool) (unit vcp : PStr) (root : RNode) (q : String) : Stri
           | none => showOut (.str (dec (.int 0) (if isSoup then BS.Gen.Pretty.soupDecodeDefaultEnc else BS.Gen.Pretty.tagDecodeDefaultEnc) false))
           | some e => showOut (.bytes e (dec (.int 0) (some e) false))
         else showOut (prettifyRaw unit vcp e r)
+      else if call == "tp" then showToks (canon (plainToks ⟨parseEnc enc BS.Gen.Pretty.tagDecodeDefaultEnc, vcp⟩ r))
+      else if call == "tq" then
+        showToks (canon (prettyToks ⟨parseEnc enc BS.Gen.Pretty.tagDecodeDefaultEnc, vcp⟩ unit ((levelOf l).getD 0) false r))
       else "bad-call"
   | _ => "bad-query"
 
